@@ -268,6 +268,7 @@ def main():
                 "quick_cmd": f"./check {pid} --tier quick",
                 "thorough_cmd": f"./check {pid} --tier thorough",
                 "evidence_file": f"/verif/evidence/{pid}.json",
+                "replay_cmd_template": "./check replay {path}",
                 "engine": "pyvc+rtc",
                 "level_claimed": {"category": cat, "text": text, "design_ref": ref},
                 "level_note": note,
